@@ -7,7 +7,8 @@ Require Import Clarabel.Base.Ops Clarabel.Base.Dyadic Clarabel.Term.Eval Clarabe
         Clarabel.Term.Spec Clarabel.Term.Check.
 Require Import Clarabel.Term.LemmasVerdict Clarabel.Term.LemmasCheck Clarabel.Term.LemmasCheck2
         Clarabel.Term.LemmasExp Clarabel.Term.LemmasPsd Clarabel.Term.LemmasFinal
-        Clarabel.Term.LemmasAlg Clarabel.Term.Farkas Clarabel.Term.LemmasMisc.
+        Clarabel.Term.LemmasAlg Clarabel.Term.Farkas Clarabel.Term.LemmasMisc
+        Clarabel.Term.FarkasGen Clarabel.Term.PairExp Clarabel.Term.PairPow Clarabel.Term.PairPsd Clarabel.Term.FarkasAll.
 
 Theorem C02_chk_farkas_p_sound :
   forall (p : prob) (ta tr c kap : dy) (z : list dy),
@@ -169,15 +170,55 @@ Theorem C02_nan :
          sol_iterations sol = iterations i /\ r_prim sol = res_primal i /\ r_dual sol = res_dual i.
 Proof. exact @LemmasMisc.objectives_nan_iff. Qed.
 
+Theorem C02_pair_exp :
+  forall s z : list R, in_exp s -> in_exp_dual z -> (0 <= dot OpsR s z)%R.
+Proof. exact @PairExp.pair_exp. Qed.
+
+Theorem C02_pair_pow :
+  forall (p q : nat) (s z : list R),
+         (0 < p < q)%nat -> in_pow p q s -> in_pow_dual p q z -> (0 <= dot OpsR s z)%R.
+Proof. exact @PairPow.pair_pow. Qed.
+
+Theorem C02_pair_pow_real :
+  forall al x y z u v w : R,
+         (0 < al < 1)%R ->
+         (0 <= x)%R ->
+         (0 <= y)%R ->
+         (0 <= u)%R ->
+         (0 <= v)%R ->
+         (Rabs z <= pw x al * pw y (1 - al))%R ->
+         (Rabs w <= pw (u / al) al * pw (v / (1 - al)) (1 - al))%R -> (0 <= x * u + y * v + z * w)%R.
+Proof. exact @PairPow.pair_pow_real. Qed.
+
+Theorem C02_pair_genpow :
+  forall (ps : list nat) (q : nat) (s z : list R),
+         list_sum ps = q ->
+         (0 < q)%nat ->
+         (length ps <= length s)%nat ->
+         length s = length z -> in_genpow ps q s -> in_genpow_dual ps q z -> (0 <= dot OpsR s z)%R.
+Proof. exact @PairPow.pair_genpow. Qed.
+
+Theorem C02_pair_psd :
+  forall (n : nat) (s z : list R),
+         length s = (n * (n + 1) / 2)%nat ->
+         length z = (n * (n + 1) / 2)%nat -> in_psd n s -> in_psd n z -> (0 <= dot OpsR s z)%R.
+Proof. exact @PairPsd.pair_psd. Qed.
+
+Theorem C02_pair_kind_all :
+  forall k : coneD, pair_kind k.
+Proof. exact @FarkasAll.pair_kind_all. Qed.
+
+Theorem C02_ray_kind_all :
+  forall k : coneD, ray_kind k.
+Proof. exact @FarkasAll.ray_kind_all. Qed.
+
 Theorem C02_pair_K :
   forall (K : list coneD) (s z : list R),
-         sym_only K ->
          InK K s -> InKdual K z -> length s = cones_dim K -> length s = length z -> (0 <= dot OpsR s z)%R.
-Proof. exact @Farkas.pair_K. Qed.
+Proof. exact @FarkasAll.pair_K_all. Qed.
 
 Theorem C02_farkas_sound :
   forall p : probRr,
-         sym_only (r_K p) ->
          cols_lt (r_A p) (r_n p) ->
          length (r_A p) = r_m p ->
          cones_dim (r_K p) = r_m p ->
@@ -185,11 +226,10 @@ Theorem C02_farkas_sound :
          length z = r_m p ->
          InKdual (r_K p) z ->
          mtv OpsR (r_A p) z (r_n p) = repeat 0%R (r_n p) -> (dot OpsR (r_b p) z < 0)%R -> ~ primal_feasible p.
-Proof. exact @Farkas.farkas_sound. Qed.
+Proof. exact @FarkasAll.farkas_sound_all. Qed.
 
 Theorem C02_farkas_quantitative :
   forall p : probRr,
-         sym_only (r_K p) ->
          cols_lt (r_A p) (r_n p) ->
          length (r_A p) = r_m p ->
          cones_dim (r_K p) = r_m p ->
@@ -202,11 +242,10 @@ Theorem C02_farkas_quantitative :
          length s = r_m p ->
          vadd OpsR (mv OpsR (r_A p) x) s = r_b p ->
          InK (r_K p) s -> (- dot OpsR (r_b p) z <= delta * norm2 x)%R.
-Proof. exact @Farkas.farkas_quantitative. Qed.
+Proof. exact @FarkasAll.farkas_quantitative_all. Qed.
 
 Theorem C02_unbounded_sound :
   forall p : probRr,
-         sym_only (r_K p) ->
          length (r_A p) = r_m p ->
          smat_sym (r_P p) (r_n p) ->
          forall x s x0 s0 : list R,
@@ -222,11 +261,15 @@ Theorem C02_unbounded_sound :
          let s1 := vadd OpsR s0 (vscale OpsR t s) in
          (length x1 = r_n p /\ length s1 = r_m p /\ vadd OpsR (mv OpsR (r_A p) x1) s1 = r_b p /\ InK (r_K p) s1) /\
          cost_p p x1 = (cost_p p x0 + t * dot OpsR (r_q p) x)%R.
-Proof. exact @Farkas.unbounded_sound. Qed.
+Proof. exact @FarkasAll.unbounded_sound_all. Qed.
 
 Theorem C02_nonvacuous_infeasible :
   ~ primal_feasible ex_p.
 Proof. exact @Farkas.ex_infeasible. Qed.
+
+Theorem C02_nonvacuous_infeasible_exp :
+  ~ primal_feasible exA.
+Proof. exact @FarkasAll.exA_infeasible. Qed.
 
 Theorem C02_nonvacuous_cert :
   let z := un_z ex_e ex_c ex2_zh ex2_kap in
